@@ -94,7 +94,7 @@ CONC_STRESS_STREAM = dict(
 
 CONC_REGRESS_STREAM = dict(
     name='conc-regress', pkg='.', files=['harness/conc/findings/vk_findings_test.go'], test='TestVerifConcRegress$',
-    model=False, seeded=False, replayable=False, timeout='10m', fail_on_rc=True,
+    model=False, seeded=False, replayable=False, timeout='4m', fail_on_rc=True,
     env=dict(quick=dict(VERIF_REGRESS_BUDGET_MS=1500), thorough=dict(VERIF_REGRESS_BUDGET_MS=15000)),
     rule='regression tests of the repaired findings F1 (deterministic), F3, F1\', F2 (searches with a time budget)',
 )
